@@ -3,9 +3,12 @@ CFG = dict(
     oracle=False,
     reference=False,
     translate=['alias'],
-    coq_targets=['proofs/AliasSitesProofs.vo', 'props/C19.vo'],
+    coq_targets=['proofs/AliasSitesProofs.vo', 'proofs/AliasBodiesProofs.vo', 'props/C19.vo'],
     gen_lemmas=['no_unframed_sites (gen/AliasSites.v regenerated from /repo: no append-on-parameter, store-parameter or return-field site)',
-                'every_site_program_ok (every copy site and unframed site of /repo, emitted as a program of model/Heap.v, follows the ownership discipline and keeps/returns an owned slice)'],
+                'every_site_program_ok (every copy site of /repo as a ONE-instruction program of model/Heap.v: the selection criterion implies it; kept as a count of the copy sites)',
+                'every_body_ok (gen/AliasBodies.v regenerated from /repo: every translated function BODY passes the ownership analysis of model/HeapProg.v from its initial flags)',
+                'api_bodies_own_nothing (every exported function of a non-internal package outside the explicit exception list starts with no owned parameter)',
+                'body_counts_add_up (considered = translated + untranslated)'],
     corr='Heap.run_prog (model/Heap.v) vs the Go runtime on random slice programs (make/sub-slice/append/copy/Concat/Clone/write)',
     rule='P cases: random slice programs, class = set of instruction kinds x length bucket, non-trivial when the program appends, copies or writes; G cases: the guard-region catalogue (every template x {primitive calls, accessors/serialization}, every subtle constructor, legacy adapters x prefix types), class = catalogue entry',
     assumptions=['Go slice semantics as modelled in model/Heap.v (validated on the random programs of this run)',
